@@ -28,6 +28,7 @@ import SvModel.Proofs.MoveAssignAll
 import SvModel.Proofs.CopyAssignProp
 import SvModel.Proofs.SwapAll
 import SvModel.Proofs.AppendOtherMove
+import SvModel.Proofs.CtorInputSys
 import SvModel.Api
 
 namespace SvModel.System
@@ -37,6 +38,7 @@ variable {α : Type}
 inductive MOp (α : Type) where
   | ctorVals (c a : Nat) (vs : List α)      -- small_vector (first, last, alloc) / (n, x, alloc) — checked allocation
   | ctorCount (c a n : Nat) (d : α)         -- small_vector (n, alloc): n value-initialised elements (value `d`)
+  | ctorInput (c a sid : Nat) (vs : List α) -- small_vector (first, last, alloc) for SINGLE-PASS iterators (stream `sid`)
   | ctorCopy (c o a : Nat)                   -- small_vector (other, alloc), any pair of inline capacities
   | dtor (c : Nat)
   | on (c : Nat) (op : SOp α)
@@ -47,13 +49,14 @@ inductive MOp (α : Type) where
   | moveAssign (c o : Nat)                   -- c = std::move (o), any pair of inline capacities, any allocator relation
   | append (c o : Nat)                       -- c.append (o), any pair of inline capacities
   | appendMove (c o : Nat)                   -- c.append (std::move (o)): copies or moves as the element type dictates, then o.clear ()
+  deriving DecidableEq
 
 structure St (α : Type) where
   w : World α
   A : List Nat
 
 def MOp.valid (cfg : Cfg) (U : List Nat) (s : St α) : MOp α → Prop
-  | .ctorVals c _ _ | .ctorCount c _ _ _ => c ∈ U ∧ c ∉ s.A
+  | .ctorVals c _ _ | .ctorCount c _ _ _ | .ctorInput c _ _ _ => c ∈ U ∧ c ∉ s.A
   | .ctorCopy c o _ => c ∈ U ∧ c ∉ s.A ∧ o ∈ s.A
   | .dtor c => c ∈ s.A
   | .on c op => c ∈ s.A ∧ op.valid (s.w.hdr c).size
@@ -69,6 +72,7 @@ def MOp.valid (cfg : Cfg) (U : List Nat) (s : St α) : MOp α → Prop
 def MOp.run (cfg : Cfg) (w : World α) : MOp α → M α Unit
   | .ctorVals c a vs => ctorFill cfg c a true (vs.map Src.ext)
   | .ctorCount c a n d => ctorFill cfg c a true (List.replicate n (.value d))
+  | .ctorInput c a sid vs => SvModel.ctorInput cfg c a sid vs
   | .ctorCopy c o a => SvModel.ctorCopy cfg c o a
   | .dtor c => SvModel.dtor cfg c
   | .on c op => op.run cfg c w
@@ -86,7 +90,7 @@ def step (cfg : Cfg) (s : St α) (x : MOp α × List Nat) : St α :=
   match x.1.run cfg w0 w0 with
   | .ok _ w' =>
       { w := w', A := match x.1 with
-                     | .ctorVals c _ _ | .ctorCount c _ _ _ | .ctorCopy c _ _ | .ctorMove c _ | .ctorMoveAlloc c _ _ => c :: s.A
+                     | .ctorVals c _ _ | .ctorCount c _ _ _ | .ctorInput c _ _ _ | .ctorCopy c _ _ | .ctorMove c _ | .ctorMoveAlloc c _ _ => c :: s.A
                      | .dtor c => s.A.filter (· ≠ c)
                      | .on _ _ | .copyAssign _ _ | .swap _ _ | .moveAssign _ _ | .append _ _ | .appendMove _ _ => s.A }
   | .thrown _ w' => { w := w', A := s.A }
@@ -165,6 +169,12 @@ theorem step_sys (cfg : Cfg) (U : List Nat) (hpol : StrongPolicy cfg) (s : St α
     have hext : External (List.replicate n (Src.value d)) := fun s hs => by rw [List.eq_of_mem_replicate hs]; rfl
     have h := SysAll.ctorFill hs0 hcU hcA a true (List.replicate n (.value d)) (fun h => by cases h) (ctorSrcs_ext cfg w0 c _ hext)
     cases hr : ctorFill cfg c a true (List.replicate n (.value d)) w0 with
+    | ok r w' => rw [hr] at h; simp only [MOp.run, hr]; exact h.1
+    | thrown e w' => rw [hr] at h; simp only [MOp.run, hr]; exact h.1
+  | ctorInput c a sid vs =>
+    obtain ⟨hcU, hcA⟩ := hv
+    have h := SysAll.ctorInput hs0 hcU hcA hpol a sid vs
+    cases hr : SvModel.ctorInput cfg c a sid vs w0 with
     | ok r w' => rw [hr] at h; simp only [MOp.run, hr]; exact h.1
     | thrown e w' => rw [hr] at h; simp only [MOp.run, hr]; exact h.1
   | ctorCopy c o a =>
@@ -294,7 +304,7 @@ def Tracks (s : St α) (σ : Nat → List (Val α)) : Prop := ∀ c ∈ s.A, Hol
 
 /-- the containers a call writes to -/
 def MOp.targets : MOp α → List Nat
-  | .ctorVals c _ _ | .ctorCount c _ _ _ | .ctorCopy c _ _ | .dtor c | .on c _ | .copyAssign c _ | .append c _ => [c]
+  | .ctorVals c _ _ | .ctorCount c _ _ _ | .ctorInput c _ _ _ | .ctorCopy c _ _ | .dtor c | .on c _ | .copyAssign c _ | .append c _ => [c]
   | .swap c o | .ctorMove c o | .ctorMoveAlloc c o _ | .moveAssign c o | .appendMove c o => [c, o]
 
 /-- the containers whose contents after a returning call the standard leaves unspecified ("valid but unspecified"):
@@ -307,6 +317,7 @@ def MOp.unspecified : MOp α → List Nat
 def MOp.spec (σ : Nat → List (Val α)) : MOp α → Nat → List (Val α)
   | .ctorVals c _ vs => upd σ c (vs.map Val.val)
   | .ctorCount c _ n d => upd σ c (List.replicate n (.val d))
+  | .ctorInput c _ _ vs => upd σ c (vs.map Val.val)
   | .ctorCopy c o _ => upd σ c (σ o)
   | .dtor _ => σ
   | .on c op => upd σ c (op.spec (σ c))
@@ -375,6 +386,21 @@ theorem step_tracks (cfg : Cfg) (U : List Nat) (hpol : StrongPolicy cfg) (s : St
     | thrown e w' =>
       rw [hr] at h; simp only [MOp.run, hr]
       exact ⟨(fun h' => by cases h'), fun _ => ⟨σ, fun d' hd => keep (ht0 d' hd) (h.2.2 d' hd).1 (h.2.2 d' hd).2, fun _ _ => rfl⟩⟩
+  | ctorInput c a sid vs =>
+    obtain ⟨hcU, hcA⟩ := hv
+    have h := SysAll.ctorInput hs0 hcU hcA hpol a sid vs
+    cases hr : SvModel.ctorInput cfg c a sid vs w0 with
+    | ok r w' =>
+      rw [hr] at h; simp only [MOp.run, hr]
+      refine ⟨fun _ => ⟨_, fun _ _ => rfl, fun d hd => ?_⟩, fun h' => by cases h'⟩
+      rcases List.mem_cons.mp hd with hdc | hd'
+      · rw [hdc]; simp only [MOp.spec, upd_same]; exact h.2.1
+      · have hne : d ≠ c := fun e => hcA (e ▸ hd')
+        simp only [MOp.spec, upd_other _ _ _ _ hne]
+        exact keep (ht0 d hd') (h.2.2 d hd').1 (h.2.2 d hd').2
+    | thrown e w' =>
+      rw [hr] at h; simp only [MOp.run, hr]
+      exact ⟨(fun h' => by cases h'), fun _ => ⟨σ, fun d hd => keep (ht0 d hd) (h.2 d hd).1 (h.2 d hd).2, fun _ _ => rfl⟩⟩
   | ctorCopy c o a =>
     obtain ⟨hcU, hcA, ho⟩ := hv
     obtain ⟨hsrc, hsz⟩ := ctorCopy_srcs hs0 hcU hcA ho
